@@ -22,6 +22,7 @@ const (
 	evCalleeLeaves
 	evTimerFires
 	evCallerLeaves
+	evCalleeUnregisters
 	evCount
 )
 
@@ -77,6 +78,7 @@ func vC02(nEvents int, withTimeout bool, eventSet []int) {
 	killOutstanding := false
 	canceled := false // router-side "already cancelled" latch
 	callerGone, calleeGone := false, false
+	unregistered := false
 	var wantCaller, wantCallee, wantOther []vExpect
 	yarg := vInt64("yield.arg")
 
@@ -196,6 +198,14 @@ func vC02(nEvents int, withTimeout bool, eventSet []int) {
 			callerGone = true
 			d.removeSession(caller.s)
 			pending = false
+		case evCalleeUnregisters:
+			// unregistering does not affect the invocation that is already pending
+			if calleeGone || unregistered {
+				continue
+			}
+			unregistered = true
+			d.unregister(callee.s, &wamp.Unregister{Request: 2, Registration: reg.Registration})
+			wantCallee = append(wantCallee, vExpect{kind: "unregistered"})
 		}
 		vSyncDealer(d)
 	}
@@ -243,6 +253,11 @@ func vC02(nEvents int, withTimeout bool, eventSet []int) {
 			if i >= len(wantCallee) {
 				break
 			}
+			if wantCallee[i].kind == "unregistered" {
+				_, isU := m.(*wamp.Unregistered)
+				vAssert("unregistered-expected-here", isU)
+				continue
+			}
 			in, ok := m.(*wamp.Interrupt)
 			vAssert("callee-gets-only-interrupts", ok)
 			if ok {
@@ -267,7 +282,7 @@ func vC02(nEvents int, withTimeout bool, eventSet []int) {
 }
 
 var vAllEvents = []int{evYieldFinal, evYieldProgress, evCalleeError, evForeignYieldFinal, evForeignYieldProgress, evForeignError,
-	evCancelSkip, evCancelKillNoWait, evCancelDefault, evCancelKill, evCancelBadMode, evForeignCancel, evCalleeLeaves, evCallerLeaves}
+	evCancelSkip, evCancelKillNoWait, evCancelDefault, evCancelKill, evCancelBadMode, evForeignCancel, evCalleeLeaves, evCallerLeaves, evCalleeUnregisters}
 
 func Harness_C02_CallLifecycle_2() { vC02(2, false, vAllEvents) }
 func Harness_C02_CallLifecycle_3() { vC02(3, false, vAllEvents) }
